@@ -42,10 +42,13 @@ RULE = (
     'main(argv) of every step of the alphabet from every reachable state; '
     'states = canonical dumps of the SQLite file, deduplicated by hash.  '
     'Phase 2: for every (state, step) edge and every fault point of that '
-    'step (each execute / executemany / row consumed / explicit commit / '
-    'implicit with-block commit) one execution with an injected '
+    'step (each execute / executemany / row consumed - in batches of more '
+    'than 32 rows the first 32, every 97th and the last one - / explicit '
+    'commit / implicit with-block commit) one execution with an injected '
     'OperationalError and one in a forked child killed at that point, '
-    'followed by a re-run of the step.  Non-trivial = a fault execution of '
+    'followed by a re-run of the step.  A 0.01 mm grid (thousands of '
+    'levels) is explored as a last step from every state where it applies, '
+    'its successors are not expanded.  Non-trivial = a fault execution of '
     'a step that would otherwise have succeeded (i.e. had something to '
     'lose).  Cases are distinct (state, step, point, mode) tuples.')
 ASSUMPTIONS = [
@@ -117,6 +120,8 @@ STEPS_ALL = {
     'grid-0.5': ['set-zeta-grid', '{db}', '-d', '0.5'],
     # a grid coarser than most rises (only in C13's step sequences)
     'grid-25': ['set-zeta-grid', '{db}', '-d', '25'],
+    # thousands of levels; explored as a last step only (TERMINAL)
+    'grid-0.01': ['set-zeta-grid', '{db}', '-d', '0.01'],
     'curvature-1.5': ['set-curvature', '{db}', '1.5'],
     'curvature-0.25': ['set-curvature', '{db}', '0.25'],
     # steps that fail on their own AFTER part of their work is done
@@ -128,8 +133,12 @@ STEPS_ALL = {
     'recession': ['recession', '{db}'],
     'recession-ref': ['recession', '{db}', '-r', '3'],
 }
+# steps whose successors are not expanded: every fault point of the step
+# itself is explored from every state, the states behind it are not
+TERMINAL = {'grid-0.01'}
 ALPHABET = {
     'quick': ['classify-A', 'classify-B', 'grid-1', 'grid-0.5', 'grid-0',
+              'grid-0.01',
               'curvature-1.5', 'rise', 'rise-ref', 'rise-offgrid',
               'recession', 'recession-ref', 'recession-offgrid'],
     'thorough': sorted(s_ for s_ in STEPS_ALL if s_ != 'grid-25'),
@@ -488,7 +497,9 @@ def explore(tier, seed, jobs, t0, deadline_s, agg, per_space, capped):
                         part['viol'][sig] = (n_edges, case, msg)
                 edges.append((history, step, res['ok'], res['npoints'],
                               res['labels']))
-                if res['ok']:
+                if res['ok'] and step in TERMINAL:
+                    part['counters']['terminal_steps_not_expanded'] += 1
+                elif res['ok']:
                     new_hist = history + (step,)
                     _MEMO[new_hist] = (res['hash'], res['bytes'])
                     key = order_free_key(new_hist)
